@@ -22,7 +22,8 @@ for _p in __import__("sys").path:
         CERT_DIR = _c
         break
 
-BEHAVIOURS = ["plain-ok", "upload-digest", "refuse", "accept-close", "accept-rst", "stall", "partial-then-close", "close-during-upload",
+BEHAVIOURS = ["plain-ok", "upload-digest", "uds-ok", "uds-refuse", "via-http-proxy-tls-ok", "via-https-proxy-tls-ok",
+              "via-socks-tls-ok", "bad-socket-option", "uds-bad-socket-option", "refuse", "accept-close", "accept-rst", "stall", "partial-then-close", "close-during-upload",
               "tls-ok", "tls-garbage", "tls-untrusted", "tls-close-in-handshake", "tls-eof-in-handshake", "tls-stall-timeout",
               "tls-stall-cancel"]
 
@@ -33,6 +34,30 @@ class Server:
     """One loopback listener with a scripted behaviour; serves connections on daemon threads."""
 
     def __init__(self, behaviour: str) -> None:
+        self.uds_path = None
+        if behaviour.startswith("uds-"):
+            import tempfile
+            self.uds_dir = tempfile.mkdtemp(prefix="hvuds_")
+            self.uds_path = os.path.join(self.uds_dir, "s")
+            self.behaviour = "plain-ok"
+            self.port = 0
+            self.accepted = 0
+            self.stop = False
+            self.conns = []
+            self.sock = socket.socket(socket.AF_UNIX, socket.SOCK_STREAM)
+            if behaviour == "uds-refuse":
+                self.sock.close()
+                return
+            self.sock.bind(self.uds_path)
+            self.sock.listen(8)
+            self.sock.settimeout(0.2)
+            self.thread = threading.Thread(target=self._loop, daemon=True)
+            self.thread.start()
+            return
+        if behaviour.startswith("via-"):
+            behaviour = "tls-ok"
+        if behaviour == "bad-socket-option":
+            behaviour = "plain-ok"
         self.behaviour = behaviour
         self.sock = socket.socket(socket.AF_INET, socket.SOCK_STREAM)
         self.sock.setsockopt(socket.SOL_SOCKET, socket.SO_REUSEADDR, 1)
@@ -186,6 +211,9 @@ class Server:
             self.sock.close()
         except OSError:
             pass
+        if self.uds_path is not None:
+            import shutil
+            shutil.rmtree(self.uds_dir, ignore_errors=True)
         for c in self.conns:
             try:
                 c.close()
@@ -215,7 +243,7 @@ def client_ctx(behaviour: str):
 
 
 def url_for(behaviour: str, port: int) -> str:
-    tls = behaviour.startswith("tls-")
+    tls = behaviour.startswith("tls-") or behaviour.startswith("via-")
     return f"{'https' if tls else 'http'}://localhost:{port}/"
 
 
@@ -225,6 +253,13 @@ TIMEOUTS = {"connect": 2.0, "read": 0.4, "write": 1.0, "pool": 2.0}
 EXPECT = {
     "plain-ok": None,
     "upload-digest": None,
+    "uds-ok": None,
+    "uds-refuse": (httpcore.ConnectError,),
+    "bad-socket-option": (httpcore.ConnectError,),
+    "uds-bad-socket-option": (httpcore.ConnectError,),
+    "via-http-proxy-tls-ok": None,
+    "via-https-proxy-tls-ok": None,
+    "via-socks-tls-ok": None,
     "tls-ok": None,
     "refuse": (httpcore.ConnectError,),
     "accept-close": (httpcore.RemoteProtocolError, httpcore.ReadError, httpcore.WriteError),
@@ -245,7 +280,20 @@ def run_one(backend: str, behaviour: str):
     """Returns dict(outcome, exc, fd_leak, accepted)."""
     srv = Server(behaviour)
     url = url_for(behaviour, srv.port)
-    tls = behaviour.startswith("tls-")
+    tls = behaviour.startswith("tls-") or behaviour.startswith("via-")
+    pool_kw = {}
+    relay = None
+    if srv.uds_path is not None:
+        pool_kw["uds"] = srv.uds_path
+    if behaviour.endswith("bad-socket-option"):
+        # the connection is made, then setting the caller's (invalid) socket option fails
+        pool_kw["socket_options"] = [(socket.SOL_SOCKET, 0x7FFF, 1)]
+    if behaviour.startswith("via-"):
+        kind = behaviour.split("-")[1]
+        relay = _Relay("socks" if kind == "socks" else "http", tls=kind == "https")
+        scheme = {"http": "http", "https": "https", "socks": "socks5"}[kind]
+        pool_kw["proxy"] = httpcore.Proxy(f"{scheme}://localhost:{relay.port}",
+                                          ssl_context=client_ctx("tls-ok") if kind == "https" else None)
     body = b"u" * (4 * 1024 * 1024) if behaviour == "close-during-upload" else None
     digest = None
     if behaviour == "upload-digest":
@@ -276,7 +324,7 @@ def run_one(backend: str, behaviour: str):
 
     try:
         if backend == "sync":
-            pool = httpcore.ConnectionPool(ssl_context=client_ctx(behaviour) if tls else None)
+            pool = httpcore.ConnectionPool(ssl_context=client_ctx(behaviour) if tls else None, **pool_kw)
             try:
                 r = pool.request(method, url, content=body, extensions=ext)
                 finish({"outcome": "ok", "status": r.status})
@@ -288,7 +336,7 @@ def run_one(backend: str, behaviour: str):
             pool.close()
         else:
             async def main():
-                pool = httpcore.AsyncConnectionPool(ssl_context=client_ctx(behaviour) if tls else None)
+                pool = httpcore.AsyncConnectionPool(ssl_context=client_ctx(behaviour) if tls else None, **pool_kw)
                 try:
                     if cancel:
                         # the caller gives up while the TLS handshake is stalled (scope cancellation)
@@ -315,15 +363,22 @@ def run_one(backend: str, behaviour: str):
         gc.collect()
         after = fds()
         srv.close()
+        if relay is not None:
+            relay.close()
     # server-side sockets live in this process too: only count sockets that survive the server's close
     time.sleep(0.02)
     gc.collect()
     res["fd_leak"] = sorted(x[1] for x in (fds() - before))
     # a socket that the code never closed is closed by its finaliser, with a ResourceWarning: that is the leak
     # (the garbage collector hides it from the fd ledger)
+    def _mine(msg: str) -> bool:
+        if "unclosed transport" in msg:
+            return True
+        if srv.uds_path is not None:
+            return "AF_UNIX" in msg
+        return "127.0.0.1" in msg and f", {srv.port})" in msg.replace("raddr=", "")
     res["resource_warnings"] = sorted({str(w.message)[:120] for w in rec if issubclass(w.category, ResourceWarning)
-                                       and "127.0.0.1" in str(w.message) and f", {srv.port})" in str(w.message).replace("raddr=", "")
-                                       or (issubclass(w.category, ResourceWarning) and "unclosed transport" in str(w.message))})
+                                       and _mine(str(w.message))})
     rec_cm.__exit__(None, None, None)
     res["accepted"] = srv.accepted
     return res
@@ -338,8 +393,9 @@ LEDGER_TIMEOUTS = {"connect": 1.1, "read": 2.2, "write": 3.3, "pool": 4.4}
 class _Relay:
     """A loopback CONNECT proxy ('http') or SOCKS5 proxy ('socks') that relays to 127.0.0.1:<port named by the client>."""
 
-    def __init__(self, kind: str) -> None:
+    def __init__(self, kind: str, tls: bool = False) -> None:
         self.kind = kind
+        self.tls = tls
         self.sock = socket.socket(socket.AF_INET, socket.SOCK_STREAM)
         self.sock.setsockopt(socket.SOL_SOCKET, socket.SO_REUSEADDR, 1)
         self.sock.bind(("127.0.0.1", 0))
@@ -371,6 +427,11 @@ class _Relay:
     def _serve(self, c) -> None:
         try:
             c.settimeout(3)
+            if self.tls:
+                ctx = ssl.SSLContext(ssl.PROTOCOL_TLS_SERVER)
+                ctx.load_cert_chain(os.path.join(CERT_DIR, "cert.pem"), os.path.join(CERT_DIR, "key.pem"))
+                c = ctx.wrap_socket(c, server_side=True)
+                self.socks.append(c)
             if self.kind == "http":
                 buf = b""
                 while b"\r\n\r\n" not in buf:
